@@ -59,9 +59,15 @@ LinkAbsTarget(name0, tgt) ==
   LET name == IF DEV_LinkRawName THEN name0 ELSE StripSlash(name0)
       absPath == IF IsAbsT(name) THEN JoinClean(Root, name) ELSE JoinClean(Dst, name)
   IN IF IsAbsT(tgt) THEN JoinClean(Root, tgt) ELSE JoinClean(Parent(absPath), tgt)
+\* a relative target must stay inside dst without climbing above it (fix d958749)
+LinkLocal(name0, tgt) ==
+  LET name == IF DEV_LinkRawName THEN name0 ELSE StripSlash(name0)
+      absPath == IF IsAbsT(name) THEN JoinClean(Root, name) ELSE JoinClean(Dst, name)
+      dir == Parent(absPath)
+  IN Under(dir, Dst) /\ Under(JoinClean(<<"#root">> \o SubSeq(dir, Len(Dst) + 1, Len(dir)), tgt), <<"#root">>)
 ValidSymlink(name, tgt) ==
   LET at == LinkAbsTarget(name, tgt) IN
-  \/ (Contains(at, Dst) /\ (DEV_AbsInside \/ ~IsAbsT(tgt)))
+  \/ (Contains(at, Dst) /\ (IF IsAbsT(tgt) THEN DEV_AbsInside ELSE LinkLocal(name, tgt)))
   \/ AllowListed(at)
 
 R(fs, dirs, st, why) == [fs |-> fs, dirs |-> dirs, st |-> st, why |-> why]
